@@ -74,10 +74,11 @@ class SymStr(V):
 
 
 class ListV(V):
-    __slots__ = ('items',)
+    __slots__ = ('items', 'lazy')
 
-    def __init__(self, items):
+    def __init__(self, items, lazy=False):
         self.items = list(items)
+        self.lazy = lazy        # the result of zip / map / filter / enumerate / reversed: an iterator in Python (next() consumes it)
 
     def __repr__(self):
         return 'ListV(%r)' % (self.items,)
@@ -822,7 +823,7 @@ class Interp:
                 return obj.extra[attr]
             if ('method:' + attr) in self.prims:
                 return BoundV(obj, attr)
-            if isinstance(obj, Const) and isinstance(obj.v, str) and attr in _PURE_STR_METHODS:
+            if isinstance(obj, Const) and isinstance(obj.v, (str, bytes)) and attr in _PURE_STR_METHODS:
                 return BoundV(obj, attr)
             if isinstance(obj, Const) and type(obj.v).__module__ == 're' and not attr.startswith('_'):
                 return BoundV(obj, attr)
@@ -1099,10 +1100,20 @@ class Interp:
             hi = self.eval(n.slice.upper, fr) if n.slice.upper is not None else NONE
             if isinstance(obj, (ListV, TupleV)) and isinstance(lo, Const) and isinstance(hi, Const) and n.slice.step is None:
                 return type(obj)(obj.items[lo.v:hi.v])
+            if isinstance(obj, Const) and isinstance(obj.v, (str, bytes, tuple)) and isinstance(lo, Const) and isinstance(hi, Const) and n.slice.step is None:
+                try:
+                    return _wrap_py(obj.v[lo.v:hi.v])
+                except TypeError as e:
+                    raise Raised('TypeError: %s' % e, n.lineno)
             if isinstance(obj, (SymStr,)) or (isinstance(obj, Sym) and obj.typ == 'str'):
                 return SymStr('%s[%s:%s]' % (_prov(obj), _prov(lo), _prov(hi)))
             return Sym('%s[%s:%s]' % (_prov(obj), _prov(lo), _prov(hi)))
         idx = self.eval(n.slice, fr)
+        if isinstance(obj, Const) and isinstance(obj.v, (str, bytes, tuple)) and isinstance(idx, Const) and isinstance(idx.v, int):
+            try:
+                return _wrap_py(obj.v[idx.v])
+            except IndexError:
+                raise Raised('IndexError: %s[%d]' % (src(n.value), idx.v), n.lineno)
         if isinstance(obj, DictV):
             r = obj.get(idx)
             if r is None:
@@ -1324,8 +1335,8 @@ class Interp:
             except Exception as e:
                 raise Raised('%s: %s' % (type(e).__name__, e), getattr(node, 'lineno', 0))
             return _wrap_py(r)
-        if isinstance(obj, Const) and isinstance(obj.v, str) and name in _PURE_STR_METHODS and not kwargs \
-                and all(isinstance(a, Const) for a in args):
+        if isinstance(obj, Const) and isinstance(obj.v, (str, bytes)) and name in _PURE_STR_METHODS and hasattr(obj.v, name) and not kwargs \
+                and all(isinstance(a, Const) for a in args) and (isinstance(obj.v, str) or getattr(self, 'concrete_context', False)):
             try:
                 r = getattr(obj.v, name)(*[a.v for a in args])
             except Exception as e:      # what CPython would raise
@@ -1347,6 +1358,12 @@ class Interp:
             ne = True if (isinstance(obj, Const) and obj.v.replace('{}', '')) else None
             return SymStr('format(%s;%s)' % (_prov(obj), parts), nonempty=ne)
         if name == 'join':
+            if isinstance(obj, Const) and isinstance(obj.v, (str, bytes)) and isinstance(args[0], (ListV, TupleV, IterV)) \
+                    and getattr(self, 'concrete_context', False):
+                items_ = self.iterate(args[0], node)
+                if all(isinstance(x, Const) and type(x.v) is type(obj.v) for x in items_):
+                    return Const(obj.v.join(x.v for x in items_))
+                args = [ListV(items_)]
             if isinstance(obj, Const) and isinstance(obj.v, str) and isinstance(args[0], (ListV, TupleV)) \
                     and all(isinstance(x, Const) and isinstance(x.v, str) for x in args[0].items):
                 return Const(obj.v.join(x.v for x in args[0].items))
@@ -1434,6 +1451,9 @@ class Interp:
             return Const(self.truth(args[0], node)) if args else FALSE
         if name == 'type':
             return self.type_of(args[0])
+        if name in ('str', 'repr') and getattr(self, 'concrete_context', False) and len(args) == 1 and isinstance(args[0], Const) \
+                and isinstance(args[0].v, (str, bytes, int, float, bool, type(None))):
+            return Const(str(args[0].v) if name == 'str' else repr(args[0].v))
         if name in ('str', 'repr'):
             return SymStr('%s(%s)' % (name, _prov(args[0])) if args else "''")
         if name == 'set' and getattr(self, 'concrete_context', False):
@@ -1528,6 +1548,12 @@ class Interp:
             if r is not NotImplemented:
                 return r
         h = getattr(self, 'p_' + name, None)
+        if h is None and name.endswith(('.__repr__', '.__str__')) and getattr(self, 'concrete_context', False) and len(args) == 1 \
+                and isinstance(args[0], Const) and isinstance(args[0].v, (str, bytes, int, float, bool)):
+            import builtins as _b
+            base_ = getattr(_b, name.split('.')[0], None)
+            if isinstance(base_, type) and isinstance(args[0].v, base_):
+                return Const(getattr(base_, name.split('.')[1])(args[0].v))
         if h is None and name.endswith(('.__repr__', '.__str__', '.__format__')):
             return SymStr('%s(%s)' % (name, ','.join(_prov(x) for x in args)), nonempty=True)
         if h is None and name in self.foreign_names:
@@ -1635,7 +1661,7 @@ class Interp:
         return Const(isinstance(a[0], (FuncV, Prim, TypeV, PartialV)) or (isinstance(a[0], Sym) and a[0].typ == 'callable'))
 
     def p_enumerate(self, a, k, n):
-        return ListV([TupleV([Const(i), x]) for i, x in enumerate(self.iterate(a[0], n))])
+        return ListV([TupleV([Const(i), x]) for i, x in enumerate(self.iterate(a[0], n))], lazy=bool(getattr(self, 'concrete_context', False)))
 
     def p_zip(self, a, k, n):
         seqs = []
@@ -1648,10 +1674,10 @@ class Interp:
         out = []
         for i in range(m):
             out.append(TupleV([s[i] if s is not None else Sym('cycle-item') for s in seqs]))
-        return ListV(out)
+        return ListV(out, lazy=bool(getattr(self, "concrete_context", False)))
 
     def p_reversed(self, a, k, n):
-        return ListV(list(reversed(self.iterate(a[0], n))))
+        return ListV(list(reversed(self.iterate(a[0], n))), lazy=bool(getattr(self, 'concrete_context', False)))
 
     def p_sorted(self, a, k, n):
         if isinstance(a[0], (Sym, SymStr)) or (isinstance(a[0], ValueV) and a[0].elems is None):
@@ -1675,6 +1701,13 @@ class Interp:
 
     def p_next(self, a, k, n):
         it_ = a[0]
+        if isinstance(it_, ListV) and getattr(it_, 'lazy', False):
+            # the result of zip / map / filter / enumerate / reversed: an iterator in Python; consumed from the front
+            if it_.items:
+                return it_.items.pop(0)
+            if len(a) > 1:
+                return a[1]
+            raise Raised('StopIteration', getattr(n, 'lineno', 0))
         if isinstance(it_, IterV):
             if it_.pos < len(it_.items):
                 it_.pos += 1
@@ -1769,11 +1802,11 @@ class Interp:
                 v = x if (isinstance(fn, Const) and fn.v is None) else self.call_function(fn, [x], {}, n)
                 if self.truth(v, n):
                     keep.append(x)
-            return ListV(keep)
+            return ListV(keep, lazy=True)
         return ListV([x for x in self.iterate(a[1], n)])
 
     def p_map(self, a, k, n):
-        return ListV([self.call_function(a[0], [x], {}, n) for x in self.iterate(a[1], n)])
+        return ListV([self.call_function(a[0], [x], {}, n) for x in self.iterate(a[1], n)], lazy=bool(getattr(self, 'concrete_context', False)))
 
     def p_warn(self, a, k, n):
         return NONE
